@@ -52,10 +52,21 @@ pub fn generate_enc_master_key() -> Sm9EncMasterKey {
 
 impl Sm9EncKey {
     pub fn decrypt(&self, idb: &[u8], data: &[u8]) -> Sm9Result<Vec<u8>> {
+        // C1 (65) || C3 (32) || C2 (1..=255 bytes: the KDF output below covers 255 + 32 bytes)
+        if data.len() < 65 + 32 + 1 || data.len() > 65 + 32 + 255 {
+            return Err(Sm9Error::InvalidFieldLen);
+        }
+        if data[0] != 0x04 {
+            return Err(Sm9Error::InvalidPoint);
+        }
         let c1_bytes = &data[0..65];
         let c2 = &data[(65 + 32)..];
         let c3 = &data[65..(65 + 32)];
         let c1 = Point::from_bytes(c1_bytes);
+        // B1: C1 must be a point of G1
+        if !c1.is_on_curve() {
+            return Err(Sm9Error::InvalidPoint);
+        }
         let w = sm9_u256_pairing(&self.de, &c1);
         let w_bytes = w.to_bytes_be();
         let mut k_append: Vec<u8> = vec![];
